@@ -106,7 +106,8 @@ def host_data():
     return {"l": [3, 1, 2], "ll": [[1, 2], [3], []], "d": {"a": 1, "b": [1, 2], "c": {"x": 1}}, "s": {1, 2, 3},
             "ld": [{"a": 1, "b": 2}, {"a": 3, "b": 4}], "n": 2, "t": "ab", "e": [], "k": "a",
             "odd": {"__src": 1, "2nd-unit": 2, "": 3, "-x": 4, "ok": 5},
-            "obj": _record()}
+            "obj": _record(),
+            "tt": (("cpu", [10, 20, 30]), ("mem", {"k": [3]}), ((1, [2]),)), "tl": ([1, 2], (3, [4]))}
 
 
 def _record():
@@ -127,7 +128,9 @@ def engines():
     # containers
     off_tuples = yaql.YaqlFactory().create(dict(base, **{"yaql.convertInputData": False, "yaql.convertTuplesToLists": False}))
     off_setlists = yaql.YaqlFactory().create(dict(base, **{"yaql.convertInputData": False, "yaql.convertSetsToLists": True}))
-    return {"on": on, "off": off, "off_tuples": off_tuples, "off_setlists": off_setlists}
+    # input conversion ON but results handed back unconverted: what the result holds is what evaluation carried
+    on_rawout = yaql.YaqlFactory().create(dict(base, **{"yaql.convertOutputData": False}))
+    return {"on": on, "off": off, "off_tuples": off_tuples, "off_setlists": off_setlists, "on_rawout": on_rawout}
 
 
 def ctx_snapshot(chain):
@@ -162,10 +165,11 @@ def stmt_snapshot(stmt):
 POOL = [("$.l", [3, 1, 2]), ("$.ll", [[1, 2], [3], []]), ("$.d", {"a": 1, "b": [1, 2], "c": {"x": 1}}), ("$.s", {1, 2, 3}),
         ("$.ld", [{"a": 1, "b": 2}, {"a": 3, "b": 4}]), ("$.odd", {"__src": 1, "2nd-unit": 2, "": 3, "-x": 4, "ok": 5}),
         ("$hd", {"q": [1], "__p": 2, "9z": 3}), ("$hv", [1, 2, 3]), ("$.obj.items", [1, 2, 3]), ("$.obj.cfg", {"a": [1], "b": 2}),
-        ("$.obj.tags", {1, 2}), ("$.n", 2), ("$.t", "ab"), ("$.e", []), ("$.k", "a"), ("1", 1), ("0", 0),
+        ("$.obj.tags", {1, 2}), ("$.tt", (("cpu", [10, 20, 30]),)), ("$.tt[0][1]", [10, 20, 30]), ("$.tt[1][1]", {"k": [3]}),
+        ("$.tl", ([1, 2],)), ("$.n", 2), ("$.t", "ab"), ("$.e", []), ("$.k", "a"), ("1", 1), ("0", 0),
         ("'a'", "a"), ("true", True), ("null", None), ("[9]", [9]), ("{z => 1}", {"z": 1}), ("-1", -1), ("[[7, 8]]", [[7, 8]])]
 LAMBDAS = ["$", "$ + 1", "$.a", "[$, $]", "$1 + $2", "$ > 1", "$ = 1", "[$, $ + 1]"]
-MUTABLE_ARGS = ("$.l", "$.ll", "$.d", "$.s", "$.ld", "$.e", "$.odd", "$hd", "$hv", "$.obj.items", "$.obj.cfg", "$.obj.tags")
+MUTABLE_ARGS = ("$.l", "$.ll", "$.d", "$.s", "$.ld", "$.e", "$.odd", "$hd", "$hv", "$.obj.items", "$.obj.cfg", "$.obj.tags", "$.tt", "$.tt[0][1]", "$.tt[1][1]", "$.tl")
 SKIP = {"now", "random", "randomInt", "assert", "cycle", "repeat", "sequence", "generate", "generateMany", "range"}
 
 
@@ -321,7 +325,10 @@ def sweep(run, deep):
                 elif stmt_snapshot(stmt) != sb:
                     what = "evaluation wrote to a node of the parsed statement"
                 else:
-                    if kind == "ok":
+                    # with output conversion switched off by the host, values that never pass input conversion (context
+                    # variables, attributes of yaqlized host objects) are handed back as they are - by request
+                    unconverted_source = mode == "on_rawout" and any(a in ("$hv", "$hd") or a.startswith("$.obj") for a in args)
+                    if kind == "ok" and not unconverted_source:
                         try:
                             scramble(res)
                         except Exception:
@@ -658,7 +665,43 @@ def no_context_histories(run):
                 d.pop("edited", None)
 
 
+def host_interface_calls(run):
+    """A YaqlInterface the HOST builds on its own context (the documented embedding API): expressions evaluated through
+    it with positional and keyword parameters bind those parameters for that call only - the host's context chain is
+    the same before and after, and a later statement sees nothing of them."""
+    import yaql
+    from yaql import yaql_interface
+    for opts in ({}, {"yaql.convertInputData": False}):
+        eng = yaql.YaqlFactory().create(dict(opts))
+        parent = yaql.create_context().create_child_context()
+        parent["limit"] = 10
+        host = parent.create_child_context()
+        host["own"] = [1]
+        chain = [host, parent]
+        before = ctx_snapshot(chain)
+        yi = yaql_interface.YaqlInterface(host, eng)
+        calls = [(lambda: yi("$1 + $2", 1, 2), 3), (lambda: yi("$limit", limit=2), 2), (lambda: yi("[$a, $limit]", a=5, limit=7), [5, 7]),
+                 (lambda: yi("$1 + $threshold", 1, threshold=4), 5), (lambda: yi("$limit"), 10), (lambda: yi("$threshold"), None),
+                 (lambda: yi.on([3, 1]).len(), 2), (lambda: yi.len([1, 2, 3]), 3), (lambda: yi("[1, 5, 20].where($ > $limit)"), [20]),
+                 (lambda: yi("let(limit => 1) -> $limit", limit=3), 1), (lambda: yi("$own"), [1])]
+        for i, (fn, want) in enumerate(calls):
+            try:
+                got = fn()
+            except Exception as e:
+                got = ("exc", type(e).__name__)
+            run.case(("hostiface", i, bool(opts)), nontrivial=True)
+            run.count("host_interface_call")
+            after = ctx_snapshot(chain)
+            if got != want or after != before:
+                run.fail("violation", "a call through a host-built YaqlInterface changes the host's context chain (its parameters "
+                                      "outlive the call) or returns another value than the expression alone",
+                         {"expression": "YaqlInterface call #%d" % i, "options": opts, "observed": repr(got)[:300], "required": repr(want),
+                          "host_chain_changed": after != before})
+                return
+
+
 def oracle(run, deep):
+    host_interface_calls(run)
     no_context_histories(run)
     hidden_parameter_writers(run)
     sweep(run, deep)
